@@ -282,8 +282,12 @@ class _AllWorkingTracker:
 class ManagerWorld:
     """A real BatteryManager fed the case's data through the fake API (inside world.run)."""
 
-    def __init__(self, case_groups: list[dict[str, Any]], timeout_s: float = 5.0, real_tracker: bool = False) -> None:
+    def __init__(self, case_groups: list[dict[str, Any]], timeout_s: float = 5.0, real_tracker: bool = False,
+                 rewired: bool = False) -> None:
         self.real_tracker = real_tracker   # keep the SDK's ComponentPoolStatusTracker instead of the all-working stub
+        # the component graph described another wiring earlier (the batteries of the first two groups swapped), was
+        # queried, and has been refreshed to the present wiring before the manager is created
+        self.rewired = rewired
         self.groups = case_groups
         self.ids = assign_ids(case_groups)
         self.timeout_s = timeout_s
@@ -308,7 +312,18 @@ class ManagerWorld:
         comps, conns = graph_parts(self.groups)
         self.api = fakes.FakeApi(comps, conns)
         self._stack = contextlib.ExitStack()
-        self._stack.enter_context(fakes.connection(fakes.build_graph(comps, conns), self.api))
+        graph = fakes.build_graph(comps, conns)
+        if self.rewired and len(self.ids) >= 2:
+            (b0, i0), (b1, i1) = self.ids[0], self.ids[1]
+            old = {c for c in conns if c.end not in set(b0) | set(b1)}
+            old |= {Connection(i, b) for i in i0 for b in b1} | {Connection(i, b) for i in i1 for b in b0}
+            graph = fakes.build_graph(comps, old)
+            for cid in list(b0) + list(b1):
+                graph.predecessors(cid)
+            for cid in list(i0) + list(i1):
+                graph.successors(cid)
+            graph.refresh_from(comps, conns)
+        self._stack.enter_context(fakes.connection(graph, self.api))
         if not self.real_tracker:
             self._stack.enter_context(mock.patch.object(_battery_manager, "ComponentPoolStatusTracker", _AllWorkingTracker))
         self.status_chan: Any = Broadcast(name="pool-status")
